@@ -996,6 +996,14 @@ func (ss *SnapSim) compare(elapsed time.Duration, tEnd int64) *Violation {
 		if E != 0 && E <= tEnd-L {
 			return ss.violation("C03.expired_present", "key already past its expiry is present on the target (via "+how+")", "key %s: source expiry %d was already past when the replay started (%d) but the key exists on the target (expiry %d, %d of %d elements)", k.Describe(), E, tEnd-L, o.ExpireAt, objElems(o), k.Val.Elems())
 		}
+		if E != 0 && E > tEnd-L && E <= tEnd+1 && o.ExpireAt >= E && o.ExpireAt <= E+L+2 { // +2: L is whole milliseconds
+			// the key's expiry passed WHILE the snapshot was being replayed (virtual latency between the chunks of
+			// one value): the part replayed before it is gone, the part replayed after it re-created the key with a
+			// relative TTL, i.e. an expiry within the tolerated shift (+0..L, see the expiry rule below). For a client
+			// the key is gone or about to go, as on the source; its momentary content is not judged.
+			simrt.Probe("c03_expired_during_replay")
+			continue
+		}
 		want := valueToObj(k.Val).Canon()
 		got := o.Canon()
 		if want != got {
